@@ -27,6 +27,10 @@
 pub use self::base::{Collector, Cleanup, Run, Repository};
 pub use self::rrdp::{HttpStatus, RrdpArchive, SnapshotReason};
 #[cfg(feature = "verif-hooks")] pub use self::rrdp::RepositoryState;
+#[cfg(feature = "verif-hooks")] pub use self::rrdp::{
+    Collector as RrdpCollector, LoadResult as RrdpLoadResult,
+    ReadRepository as RrdpReadRepository, Run as RrdpRun,
+};
 
 mod base;
 mod rrdp;
